@@ -29,6 +29,11 @@ func init() {
 	firsts["C06"] = c06.FirstCalls
 	firsts["C18"] = c18.FirstCalls
 	firsts["C19"] = c19.FirstCalls
+	firsts["C07"] = c07.FirstCalls
+	firsts["C02"] = c02.FirstCalls
+	firsts["C09"] = c09.FirstCalls
+	firsts["C10"] = c10.FirstCalls
+	firsts["C05"] = c05.FirstCalls
 	props["C01"] = prop{c01.Run, c01.Replay}
 	props["C02"] = prop{c02.Run, c02.Replay}
 	props["C03"] = prop{c03.Run, c03.Replay}
